@@ -636,6 +636,11 @@ class Evaluator:
                 if not (-len(base) <= k < len(base)):
                     raise Raised("IndexError", t)
                 base[k] = v
+            elif isinstance(base, Obj) and isinstance(k, list) and k and all(isinstance(x, bool) for x in k):
+                # x[mask] = v with a decided boolean mask: one store per selected position (numpy's masked assignment)
+                for i, sel in enumerate(k):
+                    if sel:
+                        self.events.append(("setitem", base, i, v, t))
             elif isinstance(base, Obj) or base is TOP:
                 self.events.append(("setitem", base, k, v, t))
             elif isinstance(base, BoundMethod) and isinstance(base.recv, Obj):
@@ -1020,6 +1025,8 @@ class Evaluator:
             return TOP
         if isinstance(l, BoundMethod) or isinstance(r, BoundMethod):
             return TOP  # arithmetic with an unmodelled attribute of an opaque object
+        if isinstance(l, bool) and isinstance(r, bool) and isinstance(op, (ast.BitOr, ast.BitAnd, ast.BitXor)):
+            return (l | r) if isinstance(op, ast.BitOr) else (l & r) if isinstance(op, ast.BitAnd) else (l ^ r)
         if isinstance(op, ast.BitOr) and isinstance(l, dict) and isinstance(r, dict):
             d = dict(l)
             d.update(r)
@@ -1135,6 +1142,8 @@ class Evaluator:
                 return TOP
             if isinstance(v, Obj):
                 return v  # element-wise comparison of an opaque array
+            if isinstance(v, list) and len(e.ops) == 1:
+                return v  # element-wise comparison of a modelled 1-D array (a mask)
             if not v:
                 return False
             l = r
@@ -1149,7 +1158,10 @@ class Evaluator:
                 if isinstance(l, Obj) and r is None or isinstance(r, Obj) and l is None:
                     same = False
                 return same if isinstance(op, ast.Is) else not same
-            same = l is r or (_hashable(l) and _hashable(r) and l == r and type(l) == type(r))
+            if isinstance(l, Builtin) and isinstance(r, Builtin):
+                same = l.name == r.name  # `type(x) is str`
+            else:
+                same = l is r or (_hashable(l) and _hashable(r) and l == r and type(l) == type(r))
             return same if isinstance(op, ast.Is) else not same
         if isinstance(op, (ast.Eq, ast.NotEq)):
             if isinstance(l, BoundMethod) or isinstance(r, BoundMethod):
@@ -1407,6 +1419,12 @@ class Evaluator:
                 if f.path.endswith("pos"):
                     return v
                 return v.with_eff(("neg",)) if isinstance(v, Obj) else self.binop(ast.Mult(), -1, v, node)
+            if f.path in ("functools.lru_cache", "functools.cache", "functools.wraps"):
+                # memoisation does not change what the function answers for given arguments (whether a memo may exist at all
+                # is C18's question): `lru_cache(f)` is f, `lru_cache(maxsize=...)` / `wraps(g)` are identity decorators
+                if len(args) == 1 and isinstance(args[0], (FuncV, PartialV, BoundMethod)) and f.path != "functools.wraps":
+                    return args[0]
+                return PartialV("identity", None)
             if f.path == "functools.partial":
                 if not args:
                     raise Raised("TypeError", node)
@@ -1520,6 +1538,26 @@ class Evaluator:
             if f.q.startswith("builtins:"):
                 return Obj("exception", f.q)
             init = self.P.functions.get(f.q + ".__init__")
+            cdef = self.P.classes.get(f.q)
+            if init is None and cdef is not None and any((isinstance(b, ast.Name) and b.id == "NamedTuple") or (isinstance(b, ast.Attribute) and b.attr == "NamedTuple") for b in cdef.bases):
+                # typing.NamedTuple: the annotated class attributes are the fields, in order, with their defaults
+                fields = [(st.target.id, st.value) for st in cdef.body if isinstance(st, ast.AnnAssign) and isinstance(st.target, ast.Name)]
+                names = [n for n, _ in fields]
+                if len(args) > len(names) or any(k not in names for k in kwargs):
+                    raise Raised("TypeError", node, f"{f.q.split(':')[-1]}() got unexpected arguments")
+                vals = dict(zip(names, args))
+                for k, v in kwargs.items():
+                    if k in vals:
+                        raise Raised("TypeError", node, f"{f.q.split(':')[-1]}() got multiple values for argument '{k}'")
+                    vals[k] = v
+                for n_, dflt in fields:
+                    if n_ not in vals:
+                        if dflt is None:
+                            raise Raised("TypeError", node, f"{f.q.split(':')[-1]}() missing required argument '{n_}'")
+                        vals[n_] = self.ev(dflt, Env({}, None, f.q.split(":")[0]), None)
+                at = {"__class__": f.q, "_fields": tuple(names)}
+                at.update(vals)
+                return Obj("instance", f.q, (), at)
             o = Obj("instance", f.q, (), {"__class__": f.q})
             if init is not None and self.inline:
                 self.call_function(FuncV(init, init.node, None, init.module), [o] + args, kwargs, node)
@@ -1539,6 +1577,8 @@ class Evaluator:
                 kw2 = dict(f.kwargs)
                 kw2.update(kwargs)
                 return self.call(f.f, f.args + list(args), kw2, node, env, fi)
+            if f.kind == "identity":
+                return args[0] if args else TOP
             if f.kind == "itemgetter":
                 return self.getitem(args[0], f.f, node)
             if f.kind == "attrgetter" and isinstance(f.f, str):
@@ -1865,6 +1905,15 @@ class Evaluator:
             return None
         if name == "__contains__":
             return args[0] in d
+        if name == "__getitem__" and len(args) == 1:
+            k = args[0]
+            if not _hashable(k):
+                raise Unmodelled("lookup with unknown key", node)
+            if k not in d:
+                raise Raised("KeyError", node)
+            return d[k]
+        if name == "__len__":
+            return len(d)
         raise Unmodelled(f"dict method {name}", node)
 
     def call_builtin(self, name, args, kwargs, node):
@@ -2039,6 +2088,15 @@ class Evaluator:
             return TOP
         if name == "print":
             return None
+        if name == "type" and len(args) == 1:
+            # the exact type of a Python constant / container is known; opaque values stay unknown
+            v = args[0]
+            for t in (bool, int, float, str, bytes, list, tuple, dict, set, frozenset):
+                if type(v) is t:
+                    return Builtin(t.__name__)
+            if v is None:
+                return Builtin("NoneType")
+            return TOP
         if name == "type":
             return TOP
         if name == "next":
